@@ -143,6 +143,10 @@ def items(tier):
         batch = [(d, t) for d, t in graph_variants(n, tier)]
         for i in range(0, len(batch), 40):
             out.append({"kind": "e2e", "n": n, "graphs": batch[i:i + 40], "targets": "all"})
+    # the requested task is an experiment that already has a recorded (cached) version: the graph below it is validated all the same
+    batch = [(d, t) for d, t in graph_variants(2, tier)] + [(d, t) for d, t in graph_variants(1, tier)]
+    for i in range(0, len(batch), 40):
+        out.append({"kind": "e2e", "n": 2, "graphs": batch[i:i + 40], "targets": "first", "cached_root": True})
     names = NAMES[:3]
     lists = ordered_lists(names)
     base3 = [{nm: list(c) for nm, c in zip(names, combo)} for combo in itertools.product(lists, repeat=3)]
@@ -257,17 +261,22 @@ def run_item(item, tier):
             pk = {nm: "" for nm in names}
             files = render(deps, names, pk)
             targets = names if item["targets"] == "all" else names[:1]
+            rows = pre = None
+            if item.get("cached_root"):
+                files = {k: v.replace('run_command(name="%s"' % names[0], 'run_experiment(name="%s"' % names[0]) for k, v in files.items()}
+                rows = [("//:" + names[0], 5, None, 0)]
+                pre = {"cond-out/%s.task.5/result" % names[0]: "cached\n"}
             for t in targets:
                 want = ref_verdict(deps, defined, t)
                 for flags in (["--check"], []):
                     res["evals"] += 1
-                    root = driver.fresh_project(files, name="c14e")
+                    root = driver.fresh_project(files, name="c14e", index_rows=rows, pre_tree=pre)
                     vk = vkmod.VK(project_root=root)
                     r = driver.run_cli(["run", "//:" + t] + flags, root, vk=vk, git=fakegit.NO_GIT, clock=driver.Clock())
                     spawns = [e for e in vk.log if e[0] == "spawn"]
-                    outdirs = [d for d in os.listdir(os.path.join(root, "cond-out")) if ".task" in d]
-                    res["sigs"].add(explore.sig([deps, t, flags]))
-                    art = {"kind": "e2e", "deps": deps, "target": t, "flags": flags}
+                    outdirs = [d for d in os.listdir(os.path.join(root, "cond-out")) if ".task" in d and not (rows and d == "%s.task.5" % names[0])]
+                    res["sigs"].add(explore.sig([deps, t, flags, bool(item.get("cached_root"))]))
+                    art = {"kind": "e2e", "deps": deps, "target": t, "flags": flags, "cached_root": bool(item.get("cached_root"))}
                     if r.exc is not None or "Traceback" in r.err_text:
                         viol("e2e:internal-error", "cond run %s %s on %r: %r %s" % (t, flags, deps, r.exc, r.err_text[-300:]), art)
                         continue
@@ -453,7 +462,7 @@ def replay(artefact):
     if k == "closure":
         item = {"kind": "closure", "graphs": [(deps, "replay")]}
     elif k == "e2e":
-        item = {"kind": "e2e", "graphs": [(deps, "replay")], "targets": "all"}
+        item = {"kind": "e2e", "graphs": [(deps, "replay")], "targets": "all", "cached_root": bool(artefact.get("cached_root"))}
     elif k == "project":
         item = {"kind": "project", "graphs": [(deps, "replay")]}
     else:
